@@ -107,10 +107,34 @@ def _borrow(pid, pname, n_quick, n_thorough, harness=None):
     return part
 
 
+def _cond_signallers():
+    """two or more fibers signalling the same condition variable WITHOUT the user mutex while
+    several fibers wait on it, 3-4 kernel threads: the wake path of one primitive entered by
+    several kernel threads at once (its waiter queue has a single consumer only as long as
+    the primitive serialises its signallers)"""
+    part = _borrow("C05", "cond", 0, 0)
+
+    def gen(rng, tier):
+        cases = []
+        for _ in range(n_cases(tier, 150, 1500)):
+            nw = rng.randrange(2, 5)
+            ns = rng.randrange(2, 4)
+            fibers = ["w"] * nw + [",".join(rng.choice(["S", "S", "B"]) for _ in range(rng.randrange(2, 5))) for _ in range(ns)]
+            rng.shuffle(fibers)
+            env = sched_env(rng, budget=60000)
+            if rng.random() < 0.5:
+                env = {"VR_SEED": rng.randrange(1, 1 << 30), "VR_SCHED": "rand", "VR_SWITCH": 2, "VR_BUDGET": 60000}
+            cases.append({"args": [rng.choice([3, 4]), "|".join(fibers)], "env": env})
+        return cases
+    part["name"] = "rt-cond-signallers"
+    part["gen"] = gen
+    return part
+
+
 SPEC = {
     "C01": {
         "parts": [PART_RT,
-                  _borrow("C03", "mutex", 80, 1000), _borrow("C05", "cond", 120, 1500),
+                  _borrow("C03", "mutex", 80, 1000), _borrow("C05", "cond", 120, 1500), _cond_signallers(),
                   _borrow("C07", "rwlock", 80, 1000), _borrow("C12", "barrier", 80, 1000),
                   _borrow("C11", "signal", 80, 1000, harness="signal"),
                   _borrow("C11", "chan-bounded", 60, 800, harness="chan"),
